@@ -200,6 +200,17 @@ def bfs (n : Nat) (a : Adj) (src : Nat) : List (Option Nat) :=
 
 def dist (n : Nat) (a : Adj) (i j : Nat) : Option Nat := (bfs n a i).getD j none
 
+/-- definition layer: level sets of the shortest-path metric.  `lev n a src d v = some k` iff `v` is
+first reached from `src` after `k ≤ d` steps along links between nodes `< n`
+(`Lemmas/NetPaths.lean` proves this is the length of a shortest walk). -/
+def lev (n : Nat) (a : Adj) (src : Nat) : Nat → Nat → Option Nat
+  | 0, v => if v = src then some 0 else none
+  | d + 1, v =>
+    match lev n a src d v with
+    | some k => some k
+    | none =>
+      if (List.range n).any (fun u => lev n a src d u == some d && a u v) then some (d + 1) else none
+
 /-- `1/d` with `1/inf = 0` -/
 def invDist : Option Nat → Rat
   | none => 0
@@ -240,6 +251,31 @@ def nsiCloseness (n : Nat) (d : Nat → Nat → Option Nat) (w : Nat → Rat) (i
   if (List.range n).all fun j => (d i j).isSome then
     (sumToQ n w) / sumToQ n fun j => w j * (((d i j).getD 0 + (if i = j then 1 else 0) : Nat) : Rat)
   else 0
+
+/-! ### `local_vulnerability` (`network.py:4020-4068`): node removal and two efficiencies -/
+
+/-- adjacency of `self.graph - i` (igraph deletes vertex `i` and renumbers the later ones) -/
+def removeNode (a : Adj) (i : Nat) : Adj :=
+  fun x y => a (if x < i then x else x + 1) (if y < i then y else y + 1)
+
+/-- `(E − E_i)/E` with `E = global_efficiency()` and `E_i` the efficiency of the network without
+node `i`; `none` = `nan`/`inf` of the float division when `E = 0`.  (Guard of the real code:
+`N ≥ 3`, otherwise the reduced network cannot be built / `1/(N(N−1))` divides by zero.) -/
+def localVulnerability (n : Nat) (a : Adj) (i : Nat) : Option Rat :=
+  let E := globalEfficiency n (dist n a)
+  let Ei := globalEfficiency (n - 1) (dist (n - 1) (removeNode a i))
+  if E = 0 then none else some ((E - Ei) / E)
+
+/-- `graph.average_path_length()` (igraph, `unconn=True`): mean distance over the ordered pairs
+`i ≠ j` joined by a path; `none` = `nan` when there is no such pair -/
+def avgPathLengthU (n : Nat) (d : Nat → Nat → Option Nat) : Option Rat :=
+  let tot := sumTo n fun i => sumTo n fun j => if i = j then 0 else (d i j).getD 0
+  let cnt := sumTo n fun i => sumTo n fun j => b2n (i != j && (d i j).isSome)
+  if cnt = 0 then none else some ((tot : Rat) / (cnt : Rat))
+
+/-- `graph.diameter(unconn=True)`: the largest finite distance -/
+def diameter (n : Nat) (d : Nat → Nat → Option Nat) : Nat :=
+  (List.range n).foldl (fun m i => (List.range n).foldl (fun m j => max m ((d i j).getD 0)) m) 0
 
 /-! ### n.s.i. degree family (`sp_Aplus() * node_weights`) -/
 
@@ -313,6 +349,22 @@ def assortativity (directed : Bool) (n : Nat) (a : Adj) : Option Rat :=
   let den1 := (s.den1 : Rat) / (2 * m)
   let num2 := ((s.num2 : Rat) / (2 * m)) * ((s.num2 : Rat) / (2 * m))
   if den1 - num2 = 0 then none else some ((num1 - num2) / (den1 - num2))
+
+/-- definition layer: every pair together with its mirror image -/
+def symPairs (qs : List (Rat × Rat)) : List (Rat × Rat) := qs.flatMap fun p => [p, (p.2, p.1)]
+
+/-- definition: Pearson correlation coefficient `cov(X,Y)/var(X)` of a list of pairs that is closed
+under mirroring (so both marginals have the same mean and variance); `none` if undefined -/
+def pearsonSym (ps : List (Rat × Rat)) : Option Rat :=
+  let mu := (ps.map fun p => p.1).sum / (ps.length : Rat)
+  let cov := (ps.map fun p => (p.1 - mu) * (p.2 - mu)).sum
+  let var := (ps.map fun p => (p.1 - mu) * (p.1 - mu)).sum
+  if ps.length = 0 then none else if var = 0 then none else some (cov / var)
+
+/-- the degrees found at the two ends of every link, every link in both orientations -/
+def endDegrees (directed : Bool) (n : Nat) (a : Adj) : List (Rat × Rat) :=
+  symPairs ((edgeList directed n a).map fun e =>
+    ((degree directed n a e.1 : Rat), (degree directed n a e.2 : Rat)))
 
 /-! ### `link_betweenness` bookkeeping (`network.py:2778-2794`) -/
 
